@@ -18,6 +18,7 @@ from abc import ABCMeta
 import logging
 import re
 import sys
+import threading
 from collections.abc import Callable, Iterator
 from functools import cached_property
 from operator import attrgetter
@@ -907,12 +908,23 @@ class XMLSchemaBase(XsdValidator, ElementPathMixin[Union[SchemaType, XsdElement]
                 yield from xsd_global.iter_components(xsd_classes)
 
     @cached_property
+    def _thread_local(self) -> threading.local:
+        return threading.local()
+
+    @property
     def validation_context(self) -> ValidationContext:
-        """Returns a validation context instance used for decoding schema simple values."""
-        return ValidationContext(
-            source=self.source,
-            converter=NamespaceMapper(self.namespaces),
-        )
+        """
+        Returns a validation context instance used for decoding schema simple values.
+        The instance is cleared and reused at each decoding, so each thread has its own.
+        """
+        try:
+            return cast(ValidationContext, self._thread_local.validation_context)
+        except AttributeError:
+            context = self._thread_local.validation_context = ValidationContext(
+                source=self.source,
+                converter=NamespaceMapper(self.namespaces),
+            )
+            return context
 
     def get_converter(self, converter: Optional[ConverterType] = None,
                       **kwargs: Any) -> XMLSchemaConverter:
